@@ -91,123 +91,141 @@ Definition bits_equal (d1 d2 : list Z) (n : Z) : bool :=
     let l2 := nth (sz - 1) d2 0 in
     (l1 mod 2 ^ rem =? l2 mod 2 ^ rem) && bytes_eqb (firstn (sz - 1) d1) (firstn (sz - 1) d2).
 
+(* [rec] is the recursive call (Equal on two child pointers / two list elements) *)
+Definition erec := lims -> Ptr -> Ptr -> eout * lims.
+
+(* for i := 0; i < n; i++ { sp1 := s1.Ptr(i); sp2 := s2.Ptr(i); Equal(sp1, sp2) } *)
+Definition ptr_loop (c : config) (x : ectx) (rec : erec) (p q : Ptr) : nat -> Z -> lims -> eout * lims :=
+  fix loop (k : nat) (i : Z) (w : lims) {struct k} : eout * lims :=
+    match k with
+    | O => (EOk true, w)
+    | S k' =>
+      let '(r1, rl1) := struct_ptr c (segs_of x SA) (rl_of x w SA) p i in
+      let w1 := put_rl x w SA rl1 in
+      match r1 with
+      | Panic => (EPanic, w1) | Err => (EErr, w1)
+      | Ok sp1 =>
+        let '(r2, rl2) := struct_ptr c (segs_of x SB) (rl_of x w1 SB) q i in
+        let w2 := put_rl x w1 SB rl2 in
+        match r2 with
+        | Panic => (EPanic, w2) | Err => (EErr, w2)
+        | Ok sp2 =>
+          match rec w2 sp1 sp2 with
+          | (EOk true, w3) => loop k' (i + 1) w3
+          | other => other
+          end
+        end
+      end
+    end.
+
+(* for i := 0; i < l1.Len(); i++ { Equal(l1.Struct(i).ToPtr(), l2.Struct(i).ToPtr()) } *)
+Definition elem_loop (fxd : bool) (rec : erec) (p q : Ptr) : nat -> Z -> lims -> eout * lims :=
+  fix loop (k : nat) (i : Z) (w : lims) {struct k} : eout * lims :=
+    match k with
+    | O => (EOk true, w)
+    | S k' =>
+      match list_struct fxd p i with
+      | Panic => (EPanic, w) | Err => (EErr, w)
+      | Ok e1 =>
+        match list_struct fxd q i with
+        | Panic => (EPanic, w) | Err => (EErr, w)
+        | Ok e2 =>
+          match rec w e1 e2 with
+          | (EOk true, w') => loop k' (i + 1) w'
+          | other => other
+          end
+        end
+      end
+    end.
+
+(* the struct case *)
+Definition equal_struct (c : config) (fx : efix) (x : ectx) (rec : erec) (w : lims) (p q : Ptr) : eout * lims :=
+  let m1 := segs_of x SA in
+  let m2 := segs_of x SB in
+  match slice (seg_of m1 p) (p_off p) (DataSize (p_size p)) with
+  | Panic => (EPanic, w) | Err => (EErr, w)
+  | Ok d1 =>
+    match slice (seg_of m2 q) (p_off q) (DataSize (p_size q)) with
+    | Panic => (EPanic, w) | Err => (EErr, w)
+    | Ok d2 =>
+      if negb (struct_data_equal d1 d2) then (EOk false, w) else
+      let pc1 := PointerCount (p_size p) in
+      let pc2 := PointerCount (p_size q) in
+      let n := Z.min pc1 pc2 in
+      match ptr_loop c x rec p q (Z.to_nat n) 0 w with
+      | (EOk true, w') =>
+        match no_ptrs (fx_farnull fx) (cfg_strict c) m1 p (Z.to_nat (pc1 - n)) n with
+        | Panic => (EPanic, w') | Err => (EErr, w')
+        | Ok false => (EOk false, w')
+        | Ok true =>
+          match no_ptrs (fx_farnull fx) (cfg_strict c) m2 q (Z.to_nat (pc2 - n)) n with
+          | Panic => (EPanic, w') | Err => (EErr, w')
+          | Ok b => (EOk b, w')
+          end
+        end
+      | other => other
+      end
+    end
+  end.
+
+(* the list case *)
+Definition equal_list (fx : efix) (x : ectx) (rec : erec) (w : lims) (p q : Ptr) : eout * lims :=
+  let m1 := segs_of x SA in
+  let m2 := segs_of x SB in
+  if negb (list_len p =? list_len q) then (EOk false, w)
+  else
+    (* the repair of F01 *)
+    let bit_case : option (eout * lims) :=
+      if fx_bitlist fx then
+        if negb (Bool.eqb (p_bit p) (p_bit q)) then Some (EOk false, w)
+        else if p_bit p then
+          let sz := bitListSize (p_len p) in
+          match slice (seg_of m1 p) (p_off p) sz with
+          | Panic => Some (EPanic, w) | Err => Some (EErr, w)
+          | Ok d1 =>
+            match slice (seg_of m2 q) (p_off q) sz with
+            | Panic => Some (EPanic, w) | Err => Some (EErr, w)
+            | Ok d2 => Some (EOk (bits_equal d1 d2 (p_len p)), w)
+            end
+          end
+        else None
+      else None in
+    match bit_case with
+    | Some r => r
+    | None =>
+      if negb (p_comp p) && negb (p_comp q) && negb (os_eqb (p_size p) (p_size q)) then (EOk false, w)
+      else if (PointerCount (p_size p) =? 0) && (PointerCount (p_size q) =? 0)
+              && (DataSize (p_size p) =? DataSize (p_size q)) then
+        (* pure data lists are compared bytewise *)
+        let sz := match times (totalSize (p_size p)) (p_len p) with Some x => x | None => 4294967295 end in
+        match slice (seg_of m1 p) (p_off p) sz with
+        | Panic => (EPanic, w) | Err => (EErr, w)
+        | Ok d1 =>
+          match slice (seg_of m2 q) (p_off q) sz with
+          | Panic => (EPanic, w) | Err => (EErr, w)
+          | Ok d2 => (EOk (bytes_eqb d1 d2), w)
+          end
+        end
+      else elem_loop (fx_depth (fx_rd fx)) rec p q (Z.to_nat (list_len p)) 0 w
+    end.
+
+(* one level of Equal *)
+Definition equal_step (c : config) (fx : efix) (x : ectx) (rec : erec) (w : lims) (p q : Ptr) : eout * lims :=
+  if negb (p_valid p) && negb (p_valid q) then (EOk true, w)
+  else if negb (p_valid p) || negb (p_valid q) then (EOk false, w)
+  else
+    match p_kind p, p_kind q with
+    | KStruct, KStruct => equal_struct c fx x rec w p q
+    | KList, KList => equal_list fx x rec w p q
+    | KIface, KIface => (EOk (iface_equal x p q), w)
+    | _, _ => (EOk false, w)
+    end.
+
 Fixpoint equal_m (fuel : nat) (c : config) (fx : efix) (x : ectx) (w : lims) (p q : Ptr) {struct fuel}
   : eout * lims :=
   match fuel with
   | O => (EFuel, w)
-  | S f =>
-    if negb (p_valid p) && negb (p_valid q) then (EOk true, w)
-    else if negb (p_valid p) || negb (p_valid q) then (EOk false, w)
-    else
-      let m1 := segs_of x SA in
-      let m2 := segs_of x SB in
-      match p_kind p, p_kind q with
-      | KStruct, KStruct =>
-        match slice (seg_of m1 p) (p_off p) (DataSize (p_size p)) with
-        | Panic => (EPanic, w) | Err => (EErr, w)
-        | Ok d1 =>
-          match slice (seg_of m2 q) (p_off q) (DataSize (p_size q)) with
-          | Panic => (EPanic, w) | Err => (EErr, w)
-          | Ok d2 =>
-            if negb (struct_data_equal d1 d2) then (EOk false, w) else
-            let pc1 := PointerCount (p_size p) in
-            let pc2 := PointerCount (p_size q) in
-            let n := Z.min pc1 pc2 in
-            (* common pointers *)
-            let loop :=
-              (fix loop (k : nat) (i : Z) (w : lims) {struct k} : eout * lims :=
-                 match k with
-                 | O => (EOk true, w)
-                 | S k' =>
-                   let '(r1, rl1) := struct_ptr c (segs_of x SA) (rl_of x w SA) p i in
-                   let w1 := put_rl x w SA rl1 in
-                   match r1 with
-                   | Panic => (EPanic, w1) | Err => (EErr, w1)
-                   | Ok sp1 =>
-                     let '(r2, rl2) := struct_ptr c (segs_of x SB) (rl_of x w1 SB) q i in
-                     let w2 := put_rl x w1 SB rl2 in
-                     match r2 with
-                     | Panic => (EPanic, w2) | Err => (EErr, w2)
-                     | Ok sp2 =>
-                       match equal_m f c fx x w2 sp1 sp2 with
-                       | (EOk true, w3) => loop k' (i + 1) w3
-                       | other => other
-                       end
-                     end
-                   end
-                 end) in
-            match loop (Z.to_nat n) 0 w with
-            | (EOk true, w') =>
-              match no_ptrs (fx_farnull fx) (cfg_strict c) m1 p (Z.to_nat (pc1 - n)) n with
-              | Panic => (EPanic, w') | Err => (EErr, w')
-              | Ok false => (EOk false, w')
-              | Ok true =>
-                match no_ptrs (fx_farnull fx) (cfg_strict c) m2 q (Z.to_nat (pc2 - n)) n with
-                | Panic => (EPanic, w') | Err => (EErr, w')
-                | Ok b => (EOk b, w')
-                end
-              end
-            | other => other
-            end
-          end
-        end
-      | KList, KList =>
-        if negb (list_len p =? list_len q) then (EOk false, w)
-        else
-          (* the repair of F01 *)
-          let bit_case : option (eout * lims) :=
-            if fx_bitlist fx then
-              if negb (Bool.eqb (p_bit p) (p_bit q)) then Some (EOk false, w)
-              else if p_bit p then
-                let sz := bitListSize (p_len p) in
-                match slice (seg_of m1 p) (p_off p) sz with
-                | Panic => Some (EPanic, w) | Err => Some (EErr, w)
-                | Ok d1 =>
-                  match slice (seg_of m2 q) (p_off q) sz with
-                  | Panic => Some (EPanic, w) | Err => Some (EErr, w)
-                  | Ok d2 => Some (EOk (bits_equal d1 d2 (p_len p)), w)
-                  end
-                end
-              else None
-            else None in
-          match bit_case with
-          | Some r => r
-          | None =>
-            if negb (p_comp p) && negb (p_comp q) && negb (os_eqb (p_size p) (p_size q)) then (EOk false, w)
-            else if (PointerCount (p_size p) =? 0) && (PointerCount (p_size q) =? 0)
-                    && (DataSize (p_size p) =? DataSize (p_size q)) then
-              (* pure data lists are compared bytewise *)
-              let sz := match times (totalSize (p_size p)) (p_len p) with Some x => x | None => 4294967295 end in
-              match slice (seg_of m1 p) (p_off p) sz with
-              | Panic => (EPanic, w) | Err => (EErr, w)
-              | Ok d1 =>
-                match slice (seg_of m2 q) (p_off q) sz with
-                | Panic => (EPanic, w) | Err => (EErr, w)
-                | Ok d2 => (EOk (bytes_eqb d1 d2), w)
-                end
-              end
-            else
-              (fix loop (k : nat) (i : Z) (w : lims) {struct k} : eout * lims :=
-                 match k with
-                 | O => (EOk true, w)
-                 | S k' =>
-                   match list_struct (fx_depth (fx_rd fx)) p i with
-                   | Panic => (EPanic, w) | Err => (EErr, w)
-                   | Ok e1 =>
-                     match list_struct (fx_depth (fx_rd fx)) q i with
-                     | Panic => (EPanic, w) | Err => (EErr, w)
-                     | Ok e2 =>
-                       match equal_m f c fx x w e1 e2 with
-                       | (EOk true, w') => loop k' (i + 1) w'
-                       | other => other
-                       end
-                     end
-                   end
-                 end) (Z.to_nat (list_len p)) 0 w
-          end
-      | KIface, KIface => (EOk (iface_equal x p q), w)
-      | _, _ => (EOk false, w)
-      end
+  | S f => equal_step c fx x (equal_m f c fx x) w p q
   end.
 
 (* ------------------------------------------------------------------ the harness entry *)
